@@ -310,6 +310,14 @@ def enumerate_cases(tier):
     # the first three scalar features area_um, deform, fl1_max)
     out.append(_case(dict(noidx, scal=["area_um", "deform"]), mode="closure",
                      ops=[("export_basins", 2)]))
+    # ROI size completed from the mask when there is no image; event count of
+    # a file whose alphabetically first feature is the trace group
+    for auto in ("omit", "wrong"):
+        out.append(_case(dict(full, imgf=["mask"], auto=auto), mode="closure",
+                         ops=[("export", 0)]))
+        out.append(_case(dict(noidx, scal=["userdef0"], img=None, imgf=[],
+                              contour=False, fl=[], auto=auto), mode="closure",
+                         ops=[("compress", 0)]))
     # channel count completed by the writer for every channel combination
     for fl in ((3,), (1, 3), (2, 3), (1, 2, 3)):
         out.append(_case(dict(_template(fl=fl), auto="omit"), mode="closure",
@@ -758,8 +766,8 @@ def _apply_corruption(h5, c, d, touched, info):
             return None
         if f == "index" and "index-len" in touched:
             return None
-        if not claim(f"ds:{f}"):
-            return None
+        if f"ds:events/{f}" in touched or not claim(f"ds:{f}"):
+            return None       # (object added by another corruption)
         touched.add("len")
         if f == "index":
             touched.add("index-len")
@@ -1045,6 +1053,7 @@ def _apply_corruption(h5, c, d, touched, info):
         free = [f for f in ("area_msd", "aspect", "bright_sd", "tilt", "userdef3")
                 if f not in ev]
         where = ["events", "events", "logs", "top", "tables"][b % 5]
+        d = pathlib.Path(h5.filename).parent    # relative links resolve here
         tgt = d / f"ext{len(touched)}.h5"
         if var <= 5:
             with h5py.File(tgt, "w") as e:
